@@ -35,7 +35,7 @@ def run(tier):
         for r in rows[:2] + rows[-1:]:
             ctx.samples.append(dict(corpus=name, **T.describe(r)))
     # life cycle (spec/Sonic.tla): accept / reject verdicts of Parse on a document with a history (reuse after success and failure)
-    D.lifecycle(ctx, "C01", builds[:2], 2 if q else 60, 25 if q else 40, 3)
+    D.lifecycle(ctx, "C01", builds[:2], 2 if q else 12, 25 if q else 40, 3)
     ctx.extra.update(replayed_cases=total, builds=builds, alignments=pads)
     ctx.assumptions += [
         "R-model spec/JsonText.tla (RFC 8259 recogniser; string grammar = DecodeString defined; overflow by Rounding.tla) is the only oracle",
